@@ -27,12 +27,13 @@ import (
 // messages overtake each other), may be duplicated, and one node can be made slow for one kind
 // of message.
 type schedule struct {
-	Name      string        `json:"name"`
-	MaxDelay  time.Duration `json:"max_delay"`  // uniform random delay per delivery (reordering)
-	DupProb   float64       `json:"dup_prob"`   // probability that a delivery is repeated later
-	SlowNode  int           `json:"slow_node"`  // position in the node list, -1 = none
-	SlowKind  string        `json:"slow_kind"`  // "all" | "gossip" | "deal" | "response" | "justification"
-	SlowDelay time.Duration `json:"slow_delay"` // extra delay for deliveries of that kind to the slow node
+	Name        string        `json:"name"`
+	MaxDelay    time.Duration `json:"max_delay"`  // uniform random delay per delivery (reordering)
+	DupProb     float64       `json:"dup_prob"`   // probability that a delivery is repeated later
+	SlowNode    int           `json:"slow_node"`  // position in the node list, -1 = none
+	SlowKind    string        `json:"slow_kind"`  // "all" | "gossip" | "deal" | "response" | "justification"
+	SlowDelay   time.Duration `json:"slow_delay"` // extra delay for deliveries of that kind to the slow node
+	Crash       bool          `json:"crash"` // one non-leader node (the one with the smallest key among them) crashes when the execution starts
 }
 
 type rnode struct {
@@ -51,6 +52,9 @@ type bus struct {
 	nodes    map[string]*rnode
 	sched    schedule
 	slowAddr string
+	deadAddr string
+	recorded map[string]*pdkg.DKGPacket // first response bundle sent by each node (for the replay witness)
+	indexOf  map[string]uint32          // DKG index of each node (replay witness)
 	stats    map[string]int
 	wg       sync.WaitGroup
 	closed   bool
@@ -128,6 +132,40 @@ func (b *bus) lookup(addr string) *rnode {
 	return b.nodes[addr]
 }
 
+// client is the net.DKGClient handed to one node: it knows who is sending.
+type client struct {
+	b    *bus
+	from string
+}
+
+func (c *client) Packet(ctx context.Context, p net.Peer, packet *pdkg.GossipPacket, o ...grpc.CallOption) (*pdkg.EmptyDKGResponse, error) {
+	return c.b.Packet(ctx, p, packet, o...)
+}
+
+func (c *client) BroadcastDKG(ctx context.Context, p net.Peer, in *pdkg.DKGPacket, o ...grpc.CallOption) (*pdkg.EmptyDKGResponse, error) {
+	if r := in.GetDkg().GetResponse(); r != nil {
+		c.b.mu.Lock()
+		if c.b.recorded != nil && c.b.recorded[c.from] == nil && r.GetShareIndex() == c.b.indexOf[c.from] {
+			c.b.recorded[c.from] = proto.Clone(in).(*pdkg.DKGPacket)
+		}
+		c.b.mu.Unlock()
+	}
+	if c.b.isDead(c.from) || c.b.isDead(p.Address()) {
+		// a crashed node: its bundles never leave and nothing reaches it
+		c.b.mu.Lock()
+		c.b.stats["dropped/"+dkgKind(in)]++
+		c.b.mu.Unlock()
+		return nil, errors.New("connection refused")
+	}
+	return c.b.deliverDKG(c.from, p, in)
+}
+
+func (b *bus) isDead(addr string) bool {
+	b.mu.Lock()
+	defer b.mu.Unlock()
+	return b.deadAddr != "" && b.deadAddr == addr
+}
+
 // Packet implements net.DKGClient (proposal / accept / reject / abort / execute gossip).
 func (b *bus) Packet(_ context.Context, p net.Peer, packet *pdkg.GossipPacket, _ ...grpc.CallOption) (*pdkg.EmptyDKGResponse, error) {
 	delay, dup, dd := b.plan(p.Address(), "gossip")
@@ -168,8 +206,8 @@ func dkgKind(in *pdkg.DKGPacket) string {
 	return "unknown"
 }
 
-// BroadcastDKG implements net.DKGClient (deal / response / justification bundles).
-func (b *bus) BroadcastDKG(_ context.Context, p net.Peer, in *pdkg.DKGPacket, _ ...grpc.CallOption) (*pdkg.EmptyDKGResponse, error) {
+// deliverDKG carries a deal / response / justification bundle from one node to another.
+func (b *bus) deliverDKG(from string, p net.Peer, in *pdkg.DKGPacket) (*pdkg.EmptyDKGResponse, error) {
 	delay, dup, dd := b.plan(p.Address(), dkgKind(in))
 	defer b.done()
 	time.Sleep(delay)
@@ -196,16 +234,18 @@ func (b *bus) BroadcastDKG(_ context.Context, p net.Peer, in *pdkg.DKGPacket, _ 
 	return resp, err
 }
 
+const witnessStale = "stale-bundle-eviction"
+
 // scenario is one network: a first DKG and optionally a resharing.
 type scenario struct {
-	Name      string   `json:"name"`
-	Scheme    string   `json:"scheme"`
-	N         int      `json:"n"`
-	Thr       int      `json:"threshold"`
-	Period    int      `json:"period_s"`
-	GenesisIn int64    `json:"genesis_offset_s"` // genesis = start + offset (negative: chain already running)
-	ListPerm  []int    `json:"list_perm"`        // order in which the leader lists the joiners
-	Sched     schedule `json:"schedule"`
+	Name      string        `json:"name"`
+	Scheme    string        `json:"scheme"`
+	N         int           `json:"n"`
+	Thr       int           `json:"threshold"`
+	Period    int           `json:"period_s"`
+	GenesisIn int64         `json:"genesis_offset_s"` // genesis = start + offset (negative: chain already running)
+	ListPerm  []int         `json:"list_perm"`        // order in which the leader lists the joiners
+	Sched     schedule      `json:"schedule"`
 	Phase     time.Duration `json:"phase"`
 	// resharing
 	Reshare   string   `json:"reshare"` // "" | "same" | "add" | "remove"
@@ -213,31 +253,33 @@ type scenario struct {
 	Sched2    schedule `json:"schedule2"`
 	ListPerm2 []int    `json:"list_perm2"`
 	BeaconID  string   `json:"beacon_id"`
+	Witness   string   `json:"witness,omitempty"` // replay of a candidate finding instead of a regular run
 }
 
 // nodeObs is what one node holds after a completed DKG.
 type nodeObs struct {
-	Node      int     `json:"node"`
-	Addr      string  `json:"addr"`
-	State     pState  `json:"-"`
-	Group     *pGroup `json:"group"`
-	GroupHash []byte  `json:"group_hash"`
-	ShareI    int     `json:"share_index"`
+	Node      int      `json:"node"`
+	Addr      string   `json:"addr"`
+	State     pState   `json:"-"`
+	Group     *pGroup  `json:"group"`
+	GroupHash []byte   `json:"group_hash"`
+	ShareI    int      `json:"share_index"`
 	Commits   [][]byte `json:"-"`
-	OwnIndex  int     `json:"own_group_index"`
-	T0, T1    int64   `json:"-"`
-	OnPoly    bool    `json:"share_on_polynomial"`
+	OwnIndex  int      `json:"own_group_index"`
+	T0, T1    int64    `json:"-"`
+	OnPoly    bool     `json:"share_on_polynomial"`
+	Key       []byte   `json:"-"`
 	fin       *dkg.DBState
 }
 
 type epochObs struct {
-	Scenario string    `json:"scenario"`
-	Epoch    int       `json:"epoch"`
-	Err      string    `json:"error,omitempty"`
-	Nodes    []nodeObs `json:"nodes"`
-	Expected int       `json:"expected_nodes"`
-	Subsets  int       `json:"signing_subsets"`
-	Wall     float64   `json:"wall_s"`
+	Scenario string         `json:"scenario"`
+	Epoch    int            `json:"epoch"`
+	Err      string         `json:"error,omitempty"`
+	Nodes    []nodeObs      `json:"nodes"`
+	Expected int            `json:"expected_nodes"`
+	Subsets  int            `json:"signing_subsets"`
+	Wall     float64        `json:"wall_s"`
 	Stats    map[string]int `json:"bus"`
 }
 
@@ -271,7 +313,7 @@ func (w *world) addNode(rng *rand.Rand, i int) (*rnode, error) {
 	out := util.NewFanOutChan[dkg.SharingOutput]()
 	conf := dkg.Config{Timeout: time.Minute, TimeBetweenDKGPhases: w.sc.Phase, KickoffGracePeriod: 800 * time.Millisecond}
 	n := &rnode{addr: addr, kp: kp, part: part, dir: dir, store: st}
-	n.proc = dkg.NewDKGProcess(st, ident{kp}, out, w.bus, nil, conf, quietLogger().Named(fmt.Sprintf("S%s/%s", w.sc.Name[:2], addr[:2])))
+	n.proc = dkg.NewDKGProcess(st, ident{kp}, out, &client{w.bus, addr}, nil, conf, quietLogger().Named(fmt.Sprintf("S%s/%s", w.sc.Name[:2], addr[:2])))
 	n.done = out.Listen()
 	w.bus.mu.Lock()
 	w.bus.nodes[addr] = n
@@ -319,6 +361,16 @@ func (w *world) setSchedule(s schedule) {
 	defer w.bus.mu.Unlock()
 	w.bus.sched = s
 	w.bus.slowAddr = ""
+	w.bus.deadAddr = ""
+	if s.Crash && len(w.nodes) > 1 {
+		best := w.nodes[1]
+		for _, n := range w.nodes[2:] {
+			if string(n.part.Key) < string(best.part.Key) {
+				best = n
+			}
+		}
+		w.bus.deadAddr = best.addr
+	}
 	if s.SlowNode >= 0 && s.SlowNode < len(w.nodes) {
 		w.bus.slowAddr = w.nodes[s.SlowNode].addr
 	}
@@ -382,7 +434,7 @@ func (w *world) collect(members []*rnode, epoch uint32, t0 int64, wait time.Dura
 			}
 			continue
 		}
-		o := nodeObs{Node: idx, Addr: n.addr, fin: fin, T0: t0, T1: t1}
+		o := nodeObs{Node: idx, Addr: n.addr, fin: fin, T0: t0, T1: t1, Key: append([]byte{}, n.part.Key...)}
 		o.State = projState(fin, w.sch)
 		o.Group = projGroup(fin.FinalGroup)
 		o.GroupHash = fin.FinalGroup.Hash()
@@ -423,6 +475,19 @@ func runScenario(sc scenario, seed int64) (res []epochObs) {
 	for i, n := range w.nodes {
 		parts[i] = n.part
 	}
+	if sc.Witness == witnessStale {
+		w.bus.recorded = map[string]*pdkg.DKGPacket{}
+		w.bus.indexOf = map[string]uint32{}
+		for _, n := range w.nodes {
+			r := uint32(0)
+			for _, m := range w.nodes {
+				if string(m.part.Key) < string(n.part.Key) {
+					r++
+				}
+			}
+			w.bus.indexOf[n.addr] = r
+		}
+	}
 	// ---------------- epoch 1 ----------------
 	start := time.Now()
 	w.setSchedule(sc.Sched)
@@ -445,11 +510,20 @@ func runScenario(sc scenario, seed int64) (res []epochObs) {
 	if err := cmd(leader, id, &pdkg.DKGCommand{Command: &pdkg.DKGCommand_Execute{Execute: &pdkg.ExecutionOptions{}}}); err != nil {
 		return fail(1, fmt.Errorf("execute: %w", err), nil, sc.N, start)
 	}
-	obs, err := w.collect(w.nodes, 1, t0, 4*sc.Phase+10*time.Second)
-	if err != nil {
-		return fail(1, err, obs, sc.N, start)
+	alive := w.nodes
+	if w.bus.deadAddr != "" {
+		alive = nil
+		for _, n := range w.nodes {
+			if n.addr != w.bus.deadAddr {
+				alive = append(alive, n)
+			}
+		}
 	}
-	res = append(res, epochObs{Scenario: sc.Name, Epoch: 1, Nodes: obs, Expected: sc.N, Wall: time.Since(start).Seconds(), Stats: w.bus.snapshot()})
+	obs, err := w.collect(alive, 1, t0, 4*sc.Phase+10*time.Second)
+	if err != nil {
+		return fail(1, err, obs, len(alive), start)
+	}
+	res = append(res, epochObs{Scenario: sc.Name, Epoch: 1, Nodes: obs, Expected: len(alive), Wall: time.Since(start).Seconds(), Stats: w.bus.snapshot()})
 	if sc.Reshare == "" {
 		return res
 	}
@@ -514,6 +588,25 @@ func runScenario(sc scenario, seed int64) (res []epochObs) {
 	t0 = time.Now().Unix()
 	if err := cmd(leader, id, &pdkg.DKGCommand{Command: &pdkg.DKGCommand_Execute{Execute: &pdkg.ExecutionOptions{}}}); err != nil {
 		return fail(2, fmt.Errorf("execute reshare: %w", err), nil, len(remaining)+len(joiners), start2)
+	}
+	if sc.Witness == witnessStale {
+		// a response bundle of the previous ceremony (sent by X) is delivered once more, to Y, after
+		// every node has set up the new ceremony and before the new bundles exist; Y's echo
+		// broadcast passes it on to the others like any new packet
+		x, y := w.nodes[1], w.nodes[2]
+		w.bus.mu.Lock()
+		old := w.bus.recorded[x.addr]
+		w.bus.recorded = nil
+		w.bus.mu.Unlock()
+		if old == nil {
+			return fail(2, errors.New("witness: no response bundle recorded in the first ceremony"), nil, len(remaining), start2)
+		}
+		for _, n := range remaining {
+			if err := w.waitState(n, dkg.Executing, 2, 5*time.Second); err != nil {
+				return fail(2, err, nil, len(remaining), start2)
+			}
+		}
+		_, _ = y.proc.BroadcastDKG(context.Background(), proto.Clone(old).(*pdkg.DKGPacket))
 	}
 	members := append(append([]*rnode{}, remaining...), joiners...)
 	obs2, err := w.collect(members, 2, t0, 4*sc.Phase+15*time.Second)
